@@ -263,7 +263,7 @@ func raceRun(en *Env, i int, stats map[string]int) {
 	stuck := false
 	select {
 	case <-done:
-	case <-time.After(120 * time.Second):
+	case <-h.After(120 * time.Second):
 		stuck = true
 		buf := make([]byte, 1<<20)
 		n := runtime.Stack(buf, true)
